@@ -825,7 +825,19 @@ def rule_rd_eof(cx, rep, port):
                 scopes.extend(m_)
         ml = [n for sc_ in scopes for n in walk_no_nested(sc_) if isinstance(n, ast.If) and any(isinstance(c, ast.Call) and (call_name(c) or '').endswith('is_inside_multiline_record') for c in ast.walk(n.test))]
         ok2 = bool(ml) and any(isinstance(c, ast.Call) and call_name(c) == 'self.process_record_line' for c in ast.walk(ml[0]))
-        rep.decide(ok2, 'unfinished multi-line record', ml[0] if ml else end, 'an unfinished quoted record is emitted at end of stream', 'an unfinished multi-line record is dropped at end of stream')
+        # ... also after the unterminated last line has been processed: that line can be the one that leaves the record open
+        skipped = None
+        if ok2 and any(x is ml[0] for x in walk_no_nested(end)):
+            g_ = cfgmod.CFG(end)
+            is_ml = lambda n: n.kind in ('stmt', 'test') and cfgmod.node_contains(n, lambda x: isinstance(x, ast.Call) and (call_name(x) or '').endswith('is_inside_multiline_record'))  # noqa: E731
+            last_line = [n for n in g_.nodes if n.kind in ('stmt', 'test') and cfgmod.node_contains(n, lambda x: isinstance(x, ast.Call) and call_name(x) == 'self.process_line')]
+            for n_ in last_line:
+                if not is_ml(n_) and g_.exists_path(n_, lambda x: x is g_.exit, avoid=is_ml, edge_ok=lambda a, b, lab: lab not in ('exc', 'raise')):
+                    skipped = n_
+        if skipped is not None:
+            rep.violated('unfinished multi-line record', skipped.ast, 'after the unterminated last line has been processed the end-of-stream handler can finish without asking whether a multi-line record is still open: a final record with an unbalanced quote and no trailing line break is dropped silently')
+        else:
+            rep.decide(ok2, 'unfinished multi-line record', ml[0] if ml else end, 'an unfinished quoted record is emitted at end of stream', 'an unfinished multi-line record is dropped at end of stream')
         last = [c for c in walk_no_nested(end) if isinstance(c, ast.Call) and call_name(c) == 'self.try_resolve_next_record']
         rep.decide(bool(last), 'wake consumer', last[0] if last else end, 'pending get_record() is resolved at end of stream', 'a pending get_record() is never resolved at end of stream')
 
